@@ -139,7 +139,16 @@ pub open spec fn solutions_ok(sols: Seq<Solution>) -> bool {
                     let es = crate::node_edges_spec(predicate.starts(), predicate.edges@, node_ix as int)->Some_0;
                     assert(es[ite.index@ as int] == *edge); }""")],
         props=('C01', 'C06')))
-    so.fn('in_degrees', F('in_degrees', props=('C01', 'C06')))
+    # in-degree of a node = number of incoming edges, counted with multiplicity (one per entry of its parent list)
+    so.fn('in_degrees', F('in_degrees',
+          ensures='''num_nodes <= 0x1_0000 ==> (forall|n: u16| (n as int) < num_nodes ==> #[trigger] r@.contains_key(n)),
+            num_nodes <= 0x1_0000 ==> (forall|n: u16| (n as int) < num_nodes ==> #[trigger] r@[n] == (if parent_map@.contains_key(n) { parent_map@[n]@.len() } else { 0 })),
+            num_nodes <= 0x1_0000 ==> (forall|n: u16| #[trigger] r@.contains_key(n) ==> (n as int) < num_nodes)''',
+          loops={0: {'iter_name': 'itn', 'invariant': '''num_nodes <= 0x1_0000 ==> (forall|n: u16| #[trigger] in_degrees@.contains_key(n) ==> (n as int) < itn.index@),
+                num_nodes <= 0x1_0000 ==> (forall|n: u16| (n as int) < itn.index@ ==> #[trigger] in_degrees@.contains_key(n)),
+                num_nodes <= 0x1_0000 ==> (forall|n: u16| (n as int) < itn.index@ ==> #[trigger] in_degrees@[n] == (if parent_map@.contains_key(n) { parent_map@[n]@.len() } else { 0 }))'''}},
+          closures={0: {'params': 'v: &Vec<u16>', 'ret': 'l: usize', 'ensures': 'l == v@.len()'}},
+          props=('C01', 'C06')))
     so.fn('reduce_in_degrees', F('reduce_in_degrees', props=('C01', 'C06')))
     so.fn('find_nodes_with_no_parents', F('find_nodes_with_no_parents', mode='assumed', ensures="""
             forall|k: int| 0 <= k < r@.len() ==> in_degrees@.contains_key(#[trigger] r@[k]) && in_degrees@[r@[k]] == 0,
